@@ -125,7 +125,25 @@ class UnitResult:
                     distinct=len(self.distinct))
 
 
-def _model_inputs(model, env):
+def _selects(terms, name):
+    """index terms of every Select(<array const name>, idx) occurring in the given z3 terms"""
+    seen = set()
+    out = []
+    stack = list(terms)
+    while stack:
+        t = stack.pop()
+        i = t.get_id()
+        if i in seen:
+            continue
+        seen.add(i)
+        if z3.is_app(t):
+            if t.decl().kind() == z3.Z3_OP_SELECT and z3.is_const(t.arg(0)) and t.arg(0).decl().name() == name:
+                out.append(t.arg(1))
+            stack.extend(t.children())
+    return out
+
+
+def _model_inputs(model, env, claims=()):
     out = {}
     for name, (v, bits) in env.vars.items():
         out[name] = model.eval(v, model_completion=True).as_long()
@@ -138,6 +156,11 @@ def _model_inputs(model, env):
                 x = (av + i) & 0xFFFFFFFF
                 if x not in content:
                     content[x] = model.eval(z3.Select(base, z3.BitVecVal(x, 32)), model_completion=True).as_long()
+        # addresses the oracle side reads (Select terms over the initial array inside the claims)
+        for idx in _selects([c[1] for c in claims], name):
+            x = model.eval(idx, model_completion=True).as_long()
+            if x not in content:
+                content[x] = model.eval(z3.Select(base, z3.BitVecVal(x, 32)), model_completion=True).as_long()
         out[name] = {str(k): v for k, v in sorted(content.items())}
     return out
 
@@ -217,7 +240,7 @@ def run_unit(name, fn, max_paths=200000, max_seconds=600, sample_limit=2, trace_
                 failing.append(cl[0] + ((' [' + cl[2] + ']') if len(cl) > 2 else ''))
         res.discharged += len(claims) - max(len(failing), 1)
         if len(res.failures) < max_failures:
-            res.failures.append({'unit': name, 'claims': failing, 'inputs': _model_inputs(m, env),
+            res.failures.append({'unit': name, 'claims': failing, 'inputs': _model_inputs(m, env, claims),
                                  'notes': {k: str(v) for k, v in env.notes.items()},
                                  'events': [list(map(str, e)) for e in ctx.events][:10]})
 
